@@ -17,6 +17,7 @@ import (
 	"errors"
 	"flag"
 	"fmt"
+	"io"
 	"math/rand"
 	"os"
 	"runtime"
@@ -1066,6 +1067,8 @@ type StreamScenario struct {
 	After      int    `json:"after"`      // > 0 (End = close): after the streams were closed, After concurrent callers and 2 pingers use the connection
 	RaceClose  int    `json:"raceclose"`  // > 0: that many extra streams are closed at the very moment a reader enters ReadMessage
 	BurstClose int    `json:"burstclose"` // > 0: that many extra streams get a burst of large messages and are closed at once, the close frame right behind the burst
+	Batch      int    `json:"batch"`      // the client reads its echoes after every Batch messages (default 3): larger = longer bursts towards the server
+	SrvEOF     string `json:"srveof"`     // "unexpected": accepted connections report the end of the stream as io.ErrUnexpectedEOF (a TLS record cut short)
 }
 
 func runStreamScenario(c StreamScenario) StressResult {
@@ -1095,6 +1098,9 @@ func runStreamScenario(c StreamScenario) StressResult {
 	server.SetDirectIO(c.SrvDirect)
 	server.SetNoCopy(c.SrvNoCopy)
 	fs := &fragSocket{seed: c.Seed, maxChunk: c.Frag, readers: c.Readers}
+	if c.SrvEOF == "unexpected" {
+		fs.srvEOF = io.ErrUnexpectedEOF
+	}
 	addr := sockPath("ss")
 	opts := &rpc.Options{NewCodec: rpc.NewPBCodec}
 	if nc, ok := bodyCodecOf(c.Codec); ok {
@@ -1218,7 +1224,11 @@ func runStreamScenario(c StreamScenario) StressResult {
 					fail("stream %d: WriteMessage %d: %v", i, k, err)
 					return
 				}
-				if k%3 == 2 || k == c.Msgs-1 { // read the echoes in batches
+				batch := c.Batch
+				if batch <= 0 {
+					batch = 3
+				}
+				if k%batch == batch-1 || k == c.Msgs-1 { // read the echoes in batches
 					for len(sent) > 0 {
 						var m Blob
 						if err := readWithin(st, &m, 5*time.Second); err != nil {
@@ -1307,6 +1317,24 @@ func runStreamScenario(c StreamScenario) StressResult {
 					break
 				}
 			}
+			// writers racing the Close: a message frame may leave after the close frame and reach a server that no longer
+			// knows the stream
+			var wwg sync.WaitGroup
+			for wtr := 0; wtr < 3; wtr++ {
+				wwg.Add(1)
+				go func() {
+					defer wwg.Done()
+					small := make([]byte, 64)
+					for k := 0; k < 400; k++ {
+						if err := st.WriteMessage(&Blob{B: small}); err != nil {
+							return
+						}
+					}
+				}()
+			}
+			if i%2 == 1 {
+				time.Sleep(100 * time.Microsecond)
+			}
 			cl := make(chan error, 1)
 			go func() { cl <- st.Close() }()
 			select {
@@ -1314,10 +1342,13 @@ func runStreamScenario(c StreamScenario) StressResult {
 			case <-time.After(5 * time.Second):
 				fail("burst-close stream %d: Close did not return within 5 s", i)
 			}
+			wwg.Wait()
 			wc := wcall{Conn: 5, Gor: i, Idx: i, Size: 64}
 			p := wc.payload(c.Seed)
 			var rep Blob
-			if err := conn.Call("S.Echo", &Blob{B: p}, &rep); err != nil {
+			if err, ok := within(5*time.Second, func() error { return conn.Call("S.Echo", &Blob{B: p}, &rep) }); !ok {
+				fail("burst-close stream %d: a call on the same connection after the close did not return within 5 s", i)
+			} else if err != nil {
 				fail("burst-close stream %d: a call on the same connection after the close failed: %v", i, err)
 			} else if !bytes.Equal(rep.B, transform(p)) {
 				fail("burst-close stream %d: the call after the close got a foreign reply", i)
